@@ -312,8 +312,10 @@ Definition is_identifier (t : token) : bool := ttype t =? tIDENT.
 Definition is_quoted (t : token) : bool := ttype t =? tQUOTED.
 
 (* ---------- int(text, base) for ASCII text ---------- *)
+(* white space accepted by int(): TAB..CR and SPACE (the separators 0x1c..0x1f are str.isspace()
+   but are rejected by int()) *)
 Definition is_space (c : Z) : bool :=
-  ((9 <=? c) && (c <=? 13)) || ((28 <=? c) && (c <=? 32)).
+  ((9 <=? c) && (c <=? 13)) || (c =? 32).
 
 Fixpoint lstrip (s : list Z) : list Z :=
   match s with
